@@ -23,12 +23,17 @@ def main(tier):
     mc = run_tlc("PyDRexMC", workers=16, timeout=1500)
     chk.add_tlc("PyDRexMC", mc, "Layer-B machine, all reachable states: AppendOnly (one snapshot per update, earlier ones untouched), ShapeOK, FailureAtomic")
     quiet_pydrex()
-    num = 80 if quick else 3000
+    num = 50 if quick else 3000
     depth = 14 if quick else 40
     # the simulation config bounds behaviours by MaxOps; thorough uses longer histories
     behs, sim = layerb.generate_behaviours("PyDRexC01", "PyDRexC01" if quick else "PyDRexC01_thorough", num, depth, SEED + 101)
     chk.add_tlc("PyDRexC01(simulate)", sim, f"{num} random update histories")
-    events, comp = layerb.run_behaviours(chk, "C01", behs, fcheck=False, dt_of=lambda tid: DTS[tid % len(DTS)])
+    nlong = 8 if quick else 300
+    longs, lsim = layerb.generate_behaviours("PyDRexC01", "PyDRexC01_long", nlong, 16, SEED + 102)
+    chk.add_tlc("PyDRexC01_long(simulate)", lsim, f"{nlong} long single-mineral histories (13 updates, M* 125/200, chi = 0): grains shrink towards zero volume")
+    nshort = len(behs)
+    behs = behs + longs
+    events, comp = layerb.run_behaviours(chk, "C01", behs, fcheck=False, dt_of=lambda tid: DTS[tid % len(DTS)] if tid < nshort else 0.4)
     # coverage of the discrete classes actually exercised
     seen = dict(triples=set(), flows=set(), textures=set(), ns=set(), pars=set())
     for b in behs:
